@@ -194,10 +194,15 @@ func VerifHarness_C12_NegControl() {
 // VerifHarness_C12_WhiteToWhiteXYZ: the obligations of WhiteToWhite for the XYZ
 // constructor called directly with free XYZ white points (Y = 1): a shortcut keyed on a
 // particular XYZ value is reachable here with float32-representable inputs, which the
-// xyY route (X = x/y, rounded) cannot produce.
+// xyY route (X = x/y, rounded) cannot produce. The destination white has a free luminance.
 func VerifHarness_C12_WhiteToWhiteXYZ() {
 	a, _ := verifWhiteXYZ()
 	b, _ := verifWhiteXYZ()
+	// the two whites may differ in luminance: b's Y is free in [0.5, 2] (its X and Z
+	// scale with it, so its cone responses stay within the valid range times Y)
+	yb := verifF32()
+	verifAssume(verifAnd(yb >= 0.5, yb <= 2))
+	b = Color{X: b.X * yb, Y: yb, Z: b.Z * yb}
 	ra := verifCone(float64(a.X), float64(a.Y), float64(a.Z))
 	rb := verifCone(float64(b.X), float64(b.Y), float64(b.Z))
 	ad := AdaptBetweenXYZWhitePoints(a, b)
